@@ -1985,13 +1985,19 @@ def gen_C03(rng, tier, changed):
             for nm, nvec in (('iter_rows_mut', r), ('iter_cols_mut', c)):
                 sh = Shadow()
                 ops = build(sh, 0, r, c, order, how='rowreshape')
-                # every script of next / next_back / len up to length L; with nth(1) / nth_back(1) as further commands every
-                # script of length 3 and (thorough) a sample of those of length 4
+                # every script of next / next_back / len up to length L (thorough: length L - 1 in full and a fixed sample of
+                # length L when there are too many); with nth(1) / nth_back(1) as further commands every script of length 3
+                # and (thorough) a fixed sample of those of length 4.  The samples are drawn with a fixed seed so that the
+                # rounds of a thorough run repeat them (and drop them as duplicates) instead of multiplying them.
+                fixed = random.Random(f'C03-exhaustive-{r}-{c}-{order}-{nm}')
+                base_scripts = all_nested_scripts(nvec, L, (0, 1, 2))
+                if len(base_scripts) > 6000:
+                    base_scripts = all_nested_scripts(nvec, L - 1, (0, 1, 2)) + fixed.sample(base_scripts, 6000)
                 extra = all_nested_scripts(nvec, 3)
                 if tier != 'quick':
                     longer = all_nested_scripts(nvec, 4)
-                    extra += rng.sample(longer, min(len(longer), 3000))
-                for scr in all_nested_scripts(nvec, L, (0, 1, 2)) + extra:
+                    extra += fixed.sample(longer, min(len(longer), 1500))
+                for scr in base_scripts + extra:
                     ops.append(op(nm, 0, 0, rows=[scr]))
                 cases.append(Case(f'C03-x{r}x{c}o{order}{nm[5]}', ops, ('w24' if order else 'tr') if nm[5] == 'r' else ('b1' if order else 'tr')))
     # zero-sized elements, up to usize::MAX of them, every alignment: the address counters must neither wrap nor reach null
